@@ -9,3 +9,4 @@ open Just.Props.C15
 #print axioms shallower_wins
 #print axioms modules_isolated
 #print axioms import_contributes
+#print axioms loader_terminates
